@@ -1,0 +1,13 @@
+//go:build verif
+
+package mono
+
+import "time"
+
+// VerifResetOrigin re-bases the monotonic clock on the current time.Now().
+// Verification harnesses that run under a fake clock (testing/synctest)
+// call it when the fake clock starts, since the origin captured at init
+// time would otherwise lie in the future.
+func VerifResetOrigin() {
+	origin = time.Now().Add(-time.Second)
+}
